@@ -182,12 +182,36 @@ func (x *Exec) applyContract(fc *frameCtx, st *State, i *ssa.Call, callee *ssa.F
 		t := x.evalBoolOld(cfc, st, old, e)
 		x.Sc.Assert(tImp(st.Guard, t))
 	}
+	for _, e := range con.AssumedEns {
+		t := x.evalBoolOld(cfc, st, old, e)
+		x.Sc.Assert(tImp(st.Guard, t))
+		x.Assumed["assumed postcondition of "+name+": "+e.String()] = true
+	}
 	return res
 }
 
 type modEntry struct {
-	key string // heap key (with component suffix)
-	ref *Term  // object ref / array id; nil = whole key
+	key   string             // heap key (with component suffix)
+	ref   *Term              // object ref / array id; nil = whole key (unless allow is set)
+	allow func(r *Term) *Term // set-valued entry: refs satisfying this may change
+}
+
+// mayChange returns the condition under which ref r of key k is outside the frame, or nil when the whole key is.
+func modExcl(mods []modEntry, k string, r *Term) (excl []*Term, whole bool) {
+	for _, m := range mods {
+		if m.key != k {
+			continue
+		}
+		switch {
+		case m.allow != nil:
+			excl = append(excl, tNot(m.allow(r)))
+		case m.ref == nil:
+			whole = true
+		default:
+			excl = append(excl, tNe(r, m.ref))
+		}
+	}
+	return
 }
 
 // modSet evaluates the modifies clause in the pre-state into (key, ref) pairs.
@@ -218,22 +242,44 @@ func (x *Exec) modLoc(cfc *frameCtx, old *State, m *CExpr) []modEntry {
 				sub := map[string]bool{}
 				structKeys(ft, sub)
 				for _, k := range sortedKeys(sub) {
-					out = append(out, modEntry{k, nil}) // coarse: nested struct → whole keys
+					out = append(out, modEntry{key: k}) // coarse: nested struct → whole keys
 				}
 				return out
 			}
 			for _, c := range compsOf(ft) {
-				out = append(out, modEntry{fieldKey(t, st, f) + c.Suffix, ref})
+				out = append(out, modEntry{key: fieldKey(t, st, f) + c.Suffix, ref: ref})
 			}
 			return out
 		}
 		if n, ok := t.(*types.Named); ok {
 			if g := x.W.ghostField(n, m.Name); g != nil {
-				return []modEntry{{"F:" + typeName(t) + "." + g.Name, ref}}
+				return []modEntry{{key: "F:" + typeName(t) + "." + g.Name, ref: ref}}
 			}
 		}
 		oos("modifies: no field %s in %s", m.Name, t)
 	case "call":
+		if m.Name == "unissued" {
+			// every field of every pool cell that had not been handed out before the call
+			pv := x.eval(cfc, old, old, m.Args[0], nil)
+			ref, t := x.structRefOf(pv)
+			st, _ := isStruct(t)
+			var et types.Type
+			for f := 0; f < st.NumFields(); f++ {
+				if st.Field(f).Name() == "block" {
+					et = st.Field(f).Type().Underlying().(*types.Slice).Elem()
+				}
+			}
+			if et == nil {
+				oos("unissued(): %s has no block field", t)
+			}
+			issued := mkApp("select", SArrIB, x.heapGet(old, "F:"+typeName(t)+".issued", arrSort(SArrIB)), ref)
+			sub := map[string]bool{}
+			structKeys(et, sub)
+			for _, k := range sortedKeys(sub) {
+				out = append(out, modEntry{key: k, allow: func(r *Term) *Term { return tNot(mkApp("select", SBool, issued, r)) }})
+			}
+			return out
+		}
 		if m.Name == "elems" {
 			sv := x.eval(cfc, old, old, m.Args[0], nil)
 			sl, ok := sv.V.(SliceV)
@@ -245,12 +291,12 @@ func (x *Exec) modLoc(cfc *frameCtx, old *State, m *CExpr) []modEntry {
 				sub := map[string]bool{}
 				structKeys(et, sub)
 				for _, k := range sortedKeys(sub) {
-					out = append(out, modEntry{k, nil})
+					out = append(out, modEntry{key: k})
 				}
 				return out
 			}
 			for _, c := range compsOf(et) {
-				out = append(out, modEntry{elemKey(et) + c.Suffix, sl.Arr})
+				out = append(out, modEntry{key: elemKey(et) + c.Suffix, ref: sl.Arr})
 			}
 			return out
 		}
@@ -299,17 +345,7 @@ func (x *Exec) havocForCall(cfc *frameCtx, st, old *State, callee *ssa.Function,
 		}
 		// frame: forall r < old alloc, r not in modset(k): nh[r] == oldH[r]
 		r := mkConst("fr", SInt)
-		var excl []*Term
-		whole := false
-		for _, m := range mods {
-			if m.key == k {
-				if m.ref == nil {
-					whole = true
-				} else {
-					excl = append(excl, tNe(r, m.ref))
-				}
-			}
-		}
+		excl, whole := modExcl(mods, k, r)
 		if whole {
 			continue
 		}
@@ -381,6 +417,8 @@ func (w *World) registerKeySorts() {
 	for _, bt := range []types.Type{types.Typ[types.Uint8], types.Typ[types.Int]} {
 		keySorts[elemKey(bt)] = SArr2I
 	}
+	keySorts["G:ghost.cbcount"] = SArrII
+	keySorts["G:ghost.cbarg"] = SArrII
 }
 
 // ---------------------------------------------------------------------------
